@@ -543,7 +543,7 @@ static std::string run_case(const std::vector<std::string>& w)
     const std::string& t = w[1];
     if (w[0] == "h") return t == "P" ? run_history<P>(w) : t == "Q" ? run_history<Q>(w) : std::string("BADCASE");
 #define TY(name, type) if (t == name) return run_typed<type>(w);
-    TY("P", P) TY("Q", Q) TY("R", R) TY("E", E) TY("N", N)
+    TY("S", std::string) TY("P", P) TY("Q", Q) TY("R", R) TY("E", E) TY("N", N)
     TY("T3", T3) TY("T0", T0) TY("T1", T1) TY("TI2", TI2) TY("TN", TN)
     TY("PR", PR) TY("PI2", PI2) TY("PRN", PRN) TY("V3", V3)
     TY("UP", UP) TY("SQ", SQ) TY("TU", TU) TY("PV", PV)
